@@ -104,6 +104,16 @@ fn replay_model(w: &Value) -> Option<Result<Vec<String>, String>> {
         let c = props::c02::case_from_desc(case)?;
         return Some(replay_history(&c, &hist_of(inner)).map(|x| x.0));
     }
+    if let Some(lh) = w.get("live_history").and_then(|x| x.as_array()) {
+        let names: Vec<String> = lh.iter().filter_map(|x| x.as_str()).map(|x| x.to_string()).collect();
+        let slots = num(w, "slots").unwrap_or(1) as usize;
+        return Some(crate::live::replay_live(slots, &names).map(|mut lines| {
+            if let Some(pr) = w.get("probe").and_then(|x| x.as_array()) {
+                lines.push(format!("(then: reset_last_label, provision one 16-byte buffer, decap of the probe packets {:?})", pr));
+            }
+            lines
+        }));
+    }
     let model = w.get("model")?.as_str()?.to_string();
     let hist = hist_of(w);
     let r = if model == "sender-policy" {
@@ -148,6 +158,10 @@ fn replay_model(w: &Value) -> Option<Result<Vec<String>, String>> {
         replay_history(&props::c04::a_sys(true), &hist).map(|x| x.0)
     } else if model == "B receiver alone" {
         replay_history(&props::c04::b_sys(), &hist).map(|x| x.0)
+    } else if model == "B receiver alone (one buffer)" {
+        let mut b = props::c04::b_sys();
+        b.buffers = 1;
+        replay_history(&b, &hist).map(|x| x.0)
     } else if model == "B spliced trains" {
         replay_history(&props::c03::b_sys(), &hist).map(|x| x.0)
     } else if model.starts_with("slots=") {
